@@ -18,7 +18,8 @@ class IncomingAckProtocolEntity(AckProtocolEntity):
     def toProtocolTreeNode(self):
         node = super(IncomingAckProtocolEntity, self).toProtocolTreeNode()
         node.setAttribute("from", self._from)
-        node.setAttribute("t", self.timestamp)
+        if self.timestamp is not None:
+            node.setAttribute("t", self.timestamp)
         return node
 
     def __str__(self):
